@@ -232,7 +232,7 @@ def run(tier, seed, work):
 
 def ev_add(pid, extra):
     import json, os, vlib
-    p = os.path.join(vlib.VERIF, "evidence", pid + ".json")
+    p = os.path.join(vlib.OUT, "evidence", pid + ".json")
     ev = json.load(open(p))
     ev["coverage"].update(extra)
     json.dump(ev, open(p, "w"), indent=1)
